@@ -34,6 +34,18 @@ theorem roundtrip (limit : Nat) (ops : List ConnOp)
     connection_roundtrip (own := true) Gen.intCap ⟨Props.freshEnc, Props.freshDec limit⟩ (fresh_inv limit) ops hops
   exact ⟨c', outs, h1, h3⟩
 
+/-- **C01 with size-level hypotheses only**: the technical `OpsOK` is implied by `SizesOK` — every
+    assigned table size is admitted by the decoder's permitted maximum (and below 2^60), every header list
+    fits the decoder's list limit, every name and value is shorter than 2^56 octets. Under exactly the
+    property's proviso (plus those astronomically generous size bounds) every block round-trips. -/
+theorem roundtrip_sizes (limit : Nat) (ops : List ConnOp)
+    (h : SizesOK (Props.freshDec limit).allowed limit ops) :
+    ∃ c' outs, runConn Gen.intCap true ⟨Props.freshEnc, Props.freshDec limit⟩ ops = some (c', outs) ∧
+      outs.map (fun out => out.map fun h => (h.name.bytes, h.value.bytes))
+        = (blocksOf ops).map (fun hs => hs.map fun h => (h.1, h.2.1)) :=
+  roundtrip limit ops (opsOK_of_sizesOK Gen.intCap Props.cap64 _ limit ops Props.freshEnc Props.freshEnc_ok
+    (by decide) (by simp [Props.freshEnc]) h)
+
 /-- the same from **any** state in which the two sides are consistent (`ConnInv`: both table invariants,
     the decoder's table is what the encoder's becomes once the pending updates are applied, sizes admitted),
     and the invariant is re-established — so the statement composes over arbitrarily long connections -/
@@ -78,5 +90,10 @@ def demo : List ConnOp :=
   [.setSize 40, .block [("a".toUTF8.toList, "b".toUTF8.toList, false), ("k".toUTF8.toList, "secret".toUTF8.toList, true)] true,
    .setSize 100, .block [("a".toUTF8.toList, "b".toUTF8.toList, false)] false]
 example : (runConn Gen.intCap true ⟨Props.freshEnc, Props.freshDec 65536⟩ demo).isSome = true := by decide +kernel
+example : SizesOK (Props.freshDec 65536).allowed 65536 demo := by
+  refine ⟨by decide, by decide, ⟨by decide +kernel, ?_, ⟨by decide, by decide, ⟨by decide +kernel, ?_, trivial⟩⟩⟩⟩ <;>
+  · intro h hm
+    simp only [List.mem_cons, List.not_mem_nil, or_false] at hm
+    rcases hm with rfl | rfl <;> decide +kernel
 
 end Props.C01
